@@ -91,15 +91,15 @@ def _drive(coro):
     raise RuntimeError("suspended")
 
 
-TS = (1, 1700000000, 4294967295, 4294967296, 18446744073709551616, 2147483648)
-KNDS = (1, 0, 5, 20000, 30000, 65535, 4294967296, 40000)
+TS = (1, 1700000000, 4294967295, 4294967296, 18446744073709551616, -1)
+KNDS = (1, 0, 5, 20000, 30000, 65535, 4294967296, -1)
 
 
 @obligation(funcs=["storage.kv.LMDBStorage.add_event", "storage.kv.WriterThread.run", "storage.kv.encode_event",
                    "storage.kv.Index.write"],
             timeout=(280, 1200), params=range(2),
-            bounds="PARAM 0: fresh event with created_at from {1, 1.7e9, 2^32-1, 2^32, 2^64, 2^31}, kind from {1,0,5,20000,30000,"
-                   "65535,2^32,40000}, <=1 tag from the 10 general shapes, by symbolic selectors (the validator stub accepts: these "
+            bounds="PARAM 0: fresh event with created_at from {1, 1.7e9, 2^32-1, 2^32, 2^64, -1}, kind from {1,0,5,20000,30000,"
+                   "65535,2^32,-1}, <=1 tag from the 10 general shapes, by symbolic selectors (the validator stub accepts: these "
                    "values pass is_signed); PARAM 1: the same event submitted twice")
 def ob_kv_ack(tsel: int, ksel: int, g: List[int], can: bool) -> str:
     """
